@@ -60,8 +60,10 @@ def hexf(s):
 
 
 def parse_canon(s):
+    """canonical scalar -> number.  `J<n>` is the integer n held in BIG representation (NInt::Big, rendered
+    as `n // 1`); `I<n>` is a machine word whenever n fits i64.  Value-wise they are the same number."""
     k, body = s[0], s[1:]
-    if k == "I":
+    if k in "IJ":
         return ("I", int(body))
     if k == "R":
         n, d = body.split("/")
@@ -197,7 +199,15 @@ def qround(q):
 
 # ----------------------------------------------------------------------------- rendering to Noulith / to the model runner
 def lit(n):
+    if n == -2 ** 63:
+        return "((0-9223372036854775807)-1)"      # stays a machine word (0-2^63 would be a BigInt subtraction)
     return str(n) if n >= 0 else f"(0-{-n})"
+
+
+def render_scalar(s):
+    if s[0] == "J":
+        return f"({lit(int(s[1:]))} // 1)"        # div_floor always answers in big representation
+    return render_num(parse_canon(s))
 
 
 def render_num(x):
@@ -219,10 +229,10 @@ def render_num(x):
 
 def render_arg(a):
     if isinstance(a, list):
-        return "V(" + ", ".join(render_num(parse_canon(e)) for e in a) + ")"
+        return "V(" + ", ".join(render_scalar(e) for e in a) + ")"
     if a.startswith("X:"):
         return a[2:]
-    return render_num(parse_canon(a))
+    return render_scalar(a)
 
 
 def model_num(x):
@@ -519,8 +529,10 @@ def pool(ctx):
     R = lambda n, d: ("R", Fraction(n, d))
     F = lambda f: ("F", f)
     C = lambda a, b: ("C", (a, b))
-    ints = [0, 1, -1, 2, -2, 3, 7, -7, 10, 2 ** 31, 2 ** 53 - 1, 2 ** 53, 2 ** 53 + 1, -(2 ** 53 + 1), 2 ** 63 - 1, 2 ** 63,
-            -2 ** 63, 2 ** 64, 10 ** 30, -10 ** 30, 3 ** 200, 10 ** 400, -10 ** 400]
+    ints = [0, 1, -1, 2, -2, 3, 7, -7, 10, 2 ** 31, -2 ** 31, 2 ** 32, -2 ** 32, 3037000500, -3037000500, 2 ** 53 - 1, 2 ** 53,
+            2 ** 53 + 1, -(2 ** 53 + 1), 2 ** 62, -2 ** 62, 2 ** 63 - 1, -2 ** 63 + 1, 2 ** 63, -2 ** 63, 2 ** 64, 10 ** 30, -10 ** 30,
+            3 ** 200, 10 ** 400, -10 ** 400]
+    bigrep = [-2 ** 63, -1, 0, 1, 2]      # the same values again, held in big representation
     rats = [(0, 1), (4, 2), (-3, 1), (1, 2), (-1, 2), (1, 3), (-1, 3), (2, 3), (7, 2), (-7, 2), (5, 2), (-5, 2), (22, 7),
             (-22, 7), (1, 10 ** 30), (2 ** 64 + 1, 3), (-10 ** 30, 7), (1, 10 ** 400), (10 ** 400, 3), (2 ** 53 + 1, 2),
             (2 ** 60, 1), (-1, 10 ** 400)]
@@ -548,7 +560,8 @@ def pool(ctx):
         if s not in seen:
             seen.add(s)
             out.append(s)
-    return out
+    k = len(ints)
+    return out[:k] + [f"J{n}" for n in bigrep] + out[k:]
 
 
 EXPONENTS = [0, 1, 2, 3, 5, -1, -2, -3, 10, -10, 64, -64]
@@ -612,6 +625,20 @@ def gen_cases(ctx):
             cases.append(dict(kind="b", op=op, args=["I1", o]))
             cases.append(dict(kind="b", op=op, args=[["I1", "I2"], o]))
             cases.append(dict(kind="b", op=op, args=[o, ["I1", "I2"]]))
+    # the i64 boundary as machine words and in big representation, inside vectors and against broadcast scalars
+    B = [f"I{-2 ** 63}", f"I{-2 ** 63 + 1}", f"I{2 ** 63 - 1}", f"I{2 ** 62}", f"I{-2 ** 62}", "I3037000500", "I-3037000500",
+         f"I{2 ** 32}", f"I{-2 ** 31}", "I-1", "I0", "I1", "I2", f"J{-2 ** 63}", "J-1", "J2"]
+    partners = ["I-1", "I0", "I1", "I2", "J-1", f"I{-2 ** 63}", f"I{2 ** 63 - 1}", "I3037000500"]
+    for op in BINOPS:
+        for p_ in partners:
+            if op == "pow" and abs(int(p_[1:])) > 64:
+                continue
+            cases.append(dict(kind="b", op=op, args=[B, p_]))
+            cases.append(dict(kind="b", op=op, args=[B, [p_] * len(B)]))
+            if op != "pow":
+                cases.append(dict(kind="b", op=op, args=[p_, B]))
+    for op in UNOPS:
+        cases.append(dict(kind="u", op=op, args=[B]))
     for op in UNOPS:
         for n in range(4):
             for _ in range(fills):
@@ -640,7 +667,7 @@ def is_delegated(c):
     if any(isinstance(x, str) and x.startswith("X:") for x in (a, b)):
         return False
     fl = lambda x: x if isinstance(x, list) else [x]
-    return not (all(s[0] in "IR" for s in fl(a)) and all(s[0] == "I" for s in fl(b)))
+    return not (all(s[0] in "IJR" for s in fl(a)) and all(s[0] in "IJ" for s in fl(b)))
 
 
 def evaluate(ctx, cases, runner, rem_pending):
@@ -723,15 +750,23 @@ def nontrivial(c):
 
 
 def check_pool(ctx, P):
-    """each pool element's Noulith rendering must evaluate to exactly the intended value"""
-    res = common.run_prog([render_num(parse_canon(s)) for s in P])
+    """each pool element's Noulith rendering must evaluate to exactly the intended value, and every integer
+    must be held in the intended representation (machine word when it fits i64, big for the J tokens)"""
+    res = common.run_prog([render_scalar(s) for s in P])
     badp = []
     for s, r in zip(P, res):
-        if observed(r) != "ok " + s:
+        want = "ok " + (("I" + s[1:]) if s[0] == "J" else s)
+        if observed(r) != want:
             badp.append((s, observed(r)))
+    ints = [s for s in P if s[0] in "IJ"]
+    rep = common.run_prog([f"is_big({render_scalar(s)})" for s in ints])
+    for s, r in zip(ints, rep):
+        big = s[0] == "J" or not (-2 ** 63 <= int(s[1:]) < 2 ** 63)
+        if r.get("status") == "ok" and r.get("val") != ("I1" if big else "I0"):     # is_big absent: representation unchecked
+            badp.append((s, "representation: is_big = " + str(r.get("val"))))
     if badp:
-        ctx.violation("correspondence", {"what": "pool rendering: a number's source form does not evaluate to the intended value "
-                                                 "(the generator or bits_to_float / literal / `/` changed meaning)", "pool_mismatches": badp[:10]}, found=False)
+        ctx.violation("correspondence", {"what": "pool rendering: a number's source form does not evaluate to the intended value / representation "
+                                                 "(the generator or bits_to_float / literal / `/` / `// 1` changed meaning)", "pool_mismatches": badp[:10]}, found=False)
     return not badp
 
 
